@@ -55,6 +55,16 @@ def monC04 : ObsMonitor Obs C04St where
     | .probeW a true => if (lookupSnap ms.snaps a).all (fun k => !ms.running.contains k) then some ms else none
     | _ => some ms
 
+/-- first clause of `monC04` alone (no two instances execute together); proved to accept every model trace that
+avoids the D16 pattern (`Props.C04a_obs_partial`) -/
+def monC04a : ObsMonitor Obs C04St where
+  init := {}
+  step := fun ms o =>
+    match o with
+    | .cbin k _ _ _ => if ms.running.isEmpty then some { ms with running := [k] } else none
+    | .cbout k _ => some { ms with running := ms.running.filter (· != k) }
+    | _ => some ms
+
 /-- **C04 outside the open finding D16**: as `monC04`, but once a call that asks for the nil routine (or the
 empty state) has returned a non-nil wait channel — the container has forgotten the exit channel of an instance
 that may still be executing — nothing more is demanded. -/
